@@ -77,7 +77,8 @@ def worker(case: Dict[str, Any]) -> CaseResult:
         except BaseException as e:  # noqa: BLE001
             return CaseResult("inconclusive", note="package import failed (%s) - C04's concern" % type(e).__name__, stats={"import_failed": 1})
         server = RefServer(schema_ref)
-        client, is_async = make_client(pkg, cfg, server)
+        from ..deps import make_tracer
+        client, is_async = make_client(pkg, cfg, server, make_tracer() if (case.get("cfg") or {}).get("_tracer") else None)  # the traced code path is a different one
         methods = find_methods(pkg, cfg, names)
         rng = random.Random(case["seed"] * 13 + case["idx"])
         op_nodes = {d.name.value: d for d in authored.definitions if isinstance(d, OperationDefinitionNode)}
